@@ -305,8 +305,9 @@ def settle (s : St) : St := runInt 200 s
 
 structure Sim where
   st : St
-  /-- tag ↦ (request, short timeout?) -/
-  calls : List (String × Nat × Bool)
+  /-- tag ↦ (request, time-out kind: 0 long (8 s), 1 short (150 ms, fires at `T`), 2 library default (3 s, requested as
+  0; fires at `U`)) -/
+  calls : List (String × Nat × Nat)
   connected : Bool
 
 def Sim.init : Sim := ⟨{ JT.Act.init with registered := false, writerAlive := false, stopClosed := true, leaving := true }, [], false⟩
@@ -326,7 +327,7 @@ def disconnect (m : Sim) : Sim :=
 def burst (m : Sim) (k n : Nat) : Sim :=
   (List.range n).foldl (fun (m : Sim) i =>
     let r := m.st.created
-    { m with calls := m.calls ++ [(s!"y{k}{i + 1}", r, false)],
+    { m with calls := m.calls ++ [(s!"y{k}{i + 1}", r, 0)],
              st := settle { m.st with created := r + 1, place := upd m.st.place r .ops } }) m
 
 def stepTok (m : Sim) (tok : String) : Sim :=
@@ -338,14 +339,14 @@ def stepTok (m : Sim) (tok : String) : Sim :=
       burst m k n
     | none => m
   else if tok = "X" then disconnect m
-  else if tok = "T" then
-    -- every short-timeout command still recorded times out
+  else if tok = "T" || tok = "U" then
+    -- every short-timeout command still recorded times out (`U`: 3.3 s pass, the library's default time-out fires too)
     let fire := m.calls.filterMap fun c =>
-      if c.2.2 then match m.st.place c.2.1 with | .recorded t => some t | _ => none else none
+      if c.2.2 = 1 || (c.2.2 = 2 && tok = "U") then match m.st.place c.2.1 with | .recorded t => some t | _ => none else none
     { m with st := settle { m.st with timers := m.st.timers.filter (fun t => !fire.contains t), doneCh := m.st.doneCh ++ fire } }
   else if tok.startsWith "C" then
     let tag := ((tok.drop 1).dropRight 1).toString
-    let short := tok.endsWith "S"
+    let short : Nat := if tok.endsWith "S" then 1 else if tok.endsWith "Z" then 2 else 0
     let r := m.st.created
     { m with calls := m.calls ++ [(tag, r, short)],
              st := settle { m.st with created := r + 1, place := upd m.st.place r .ops } }
